@@ -640,6 +640,31 @@ def _scen_repoint(out, ctx, case, n, ref, info):
     cur_spec = case["stream"]
     before = n
     total = n
+    # a REFUSED stream assignment (not a stream object) changes nothing: the next draws are those of an instance
+    # that drew the same numbers and was never touched
+    s_ctl = _mk_stream(case["stream"], n + 2)
+    d_ctl = ctx.make_valid(s_ctl)
+    if d_ctl is not None:
+        ctx.draws(d_ctl, s_ctl, n)
+        for bad in ("not a stream", None):
+            try:
+                d.stream = bad
+                ctx.fail("bad-stream-accepted:%s" % ctx.cname, repr(bad))
+                return
+            except Inconclusive:
+                raise
+            except Exception:      # noqa: BLE001
+                pass
+        if d.stream is not s_cur:
+            ctx.fail("repoint-stream-property:%s" % ctx.cname, "stream changed by a refused assignment")
+            return
+        want2 = ctx.draws(d_ctl, s_ctl, 2)
+        got2 = ctx.draws(d, s_cur, 2)
+        _cmp(ctx, "refused-stream-assignment-changed-draws:%s" % ctx.cname, want2, got2, {"draws_before": n})
+        if got2 and got2[-1][0] == "raise":
+            return
+        before = total = n + 2
+        out.label("refused-stream-assignment")
     for spec, m in segs:
         m = max(1, int(m))
         if spec == "same":
@@ -992,6 +1017,15 @@ def enumerate_cases(tier):
                 for prefix in ([x], [0.3, x], [x, x], [0.3, 0.3, x]):
                     cases.append({"cls": cname, "params": _e(p), "bad_stream": False, "scen": "twin",
                                   "stream": {"k": "scr", "prefix": [_hx(u) for u in prefix], "tail": 7}, "n": 3})
+    # 1b. long runs of one and the same (or two alternating) uniforms: the gamma-based rejection samplers give up
+    #     after 1000 candidates and must still hand out a value of the support (the polar method of the normal
+    #     family has no such bound and is not driven this way)
+    for cname in ("DistGamma", "DistErlang", "DistBeta", "DistPearson5", "DistPearson6"):
+        for p in ENUM_PARAMS[cname]:
+            for run in ([1.0 - 2.0 ** -53], [0.999999], [0.99, 1.0 - 2.0 ** -53], [0.5]):
+                cases.append({"cls": cname, "params": _e(p), "bad_stream": False, "scen": "twin",
+                              "stream": {"k": "scr", "prefix": [_hx(u) for u in run * (4400 // len(run))], "tail": 7},
+                              "n": 1})
     # 2. every invalid alternative of every parameter, every violated relation, a non-stream
     for cname in CLASSES:
         base = _e(ENUM_PARAMS[cname][1])
